@@ -716,7 +716,8 @@ def run_disk_program(cfg, init, prog, bound, acc=None):
         elif (key, final) not in seq:
             what = "returns" if not any(key == res for res, _ in seq) else "final-state"
             over = what == "final-state" and len(final) < min(len(f) for _, f in seq)
-            out.append(({"kind": "not-linearizable-" + what, "over_eviction": over, **base},
+            corrupt = any(v == "<corrupt>" for _, v in final)
+            out.append(({"kind": "not-linearizable-" + what, "over_eviction": over, "corrupt_file": corrupt, **base},
                         f"DiskCache max_size={cfg['max_size']} lru={cfg.get('lru')} init={init} two processes {prog}: returns {dict(results)} files {final} match no sequential order; schedule {ch.choices}", ch.choices))
     if acc is not None:
         acc.transitions += n
@@ -959,6 +960,7 @@ def replay(art):
         key = tuple(sorted(results.items()))
         if (key, final) not in seq:
             what = "returns" if not any(key == res for res, _ in seq) else "final-state"
-            return [{"kind": "not-linearizable-" + what, "over_eviction": what == "final-state" and len(final) < min(len(f) for _, f in seq), **base}]
+            return [{"kind": "not-linearizable-" + what, "over_eviction": what == "final-state" and len(final) < min(len(f) for _, f in seq),
+                     "corrupt_file": any(v == "<corrupt>" for _, v in final), **base}]
         return []
     return []
